@@ -25,6 +25,7 @@ def run(col, configs, tier):
         guarded(col, S.rule_end_of_buffer_neutral, facts)
         guarded(col, S.rule_lookaround_kind, facts)
         guarded(col, S.rule_run_skip_bound, facts)
+        guarded_soft(col, S.rule_single_never_splits_run, facts)
         guarded(col, S.rule_skip_zeros_unit, facts)
         guarded_soft(col, X.rule_raw_digit_scans, facts)
         guarded_soft(col, X.rule_grammar_guards, facts)
